@@ -163,6 +163,65 @@ def make_choose(strategy, rng):
     raise ValueError(strategy)
 
 
+def make_script_choose(devs):
+    '''default schedule = keep running the thread that ran last while it is enabled, else the
+    enabled thread with the smallest id; `devs` {step: tid} are the deviations from it'''
+    state = {'last': None}
+
+    def choose(step, runnable):
+        tid = devs.get(step)
+        if tid is None or tid not in runnable:
+            tid = state['last'] if state['last'] in runnable else runnable[0]
+        state['last'] = tid
+        return tid
+    return choose
+
+
+def explore(world, case, oracles, fake_ctx_cls, focus):
+    '''Bounded-exhaustive exploration: ALL schedules of a single-run case that deviate from the
+    default schedule at most k times.  Oracles are evaluated here; only counts, the failures
+    and a sample of full runs go back to the parent.'''
+    k = case['explore']['k']
+    budget = case['explore'].get('budget', 100000)
+    todo = [{}]
+    nruns = 0
+    failures = []
+    sample = []
+    maxlen = 0
+    complete = True
+    while todo:
+        if nruns >= budget:
+            complete = False
+            break
+        devs = todo.pop()
+        c = copy.deepcopy(case)
+        c['runs'][0]['strategy'] = 'script'
+        c['runs'][0]['script'] = {str(a): b for a, b in devs.items()}
+        res = run_history(world, c)
+        nruns += 1
+        run = res[0]
+        trace = run['trace']
+        maxlen = max(maxlen, len(trace))
+        ctx = fake_ctx_cls()
+        oracles[focus](ctx, c, run)
+        for what, rcase, key in ctx.failures[:2]:
+            if len(failures) < 5:
+                failures.append([what, rcase, key])
+        if nruns <= 2 or (nruns % 997 == 0 and len(sample) < 6):
+            sample.append(res)
+        if len(devs) < k:
+            last = max(devs) if devs else -1
+            for i in range(last + 1, len(trace)):
+                chosen, enabled = trace[i][0], trace[i][5]
+                for alt in enabled:
+                    if alt != chosen:
+                        nd = dict(devs)
+                        nd[i] = alt
+                        todo.append(nd)
+    return {'ok': True, 'explored': nruns, 'complete': complete, 'k': k, 'max_events': maxlen,
+            'failures': failures, 'sample_runs': sample}
+
+
 def run_history(world, case):
     '''case: n, hard, soft, workers, init (list of entries or None), clock0,
     runs: [{outcomes, lost, strategy, seed}]'''
@@ -202,7 +261,10 @@ def run_history(world, case):
         world.outcomes = run['outcomes']
         world.run_execs = [0] * n
         rng = random.Random(run['seed'])
-        choose = make_choose(run['strategy'], rng)
+        if run['strategy'] == 'script':
+            choose = make_script_choose({int(a): b for a, b in run.get('script', {}).items()})
+        else:
+            choose = make_choose(run['strategy'], rng)
         env0 = snapshot_env(env, n)
         started0 = list(world.exec_count)
         sched_box = {}
@@ -282,6 +344,12 @@ def main(argv):
     with open(argv[2], 'w') as out:
         for case in cases:
             try:
+                if case.get('explore'):
+                    from vp import schedcheck
+                    res = explore(world, case, schedcheck.ORACLES, schedcheck.FakeCtx, case['explore']['focus'])
+                    out.write(json.dumps(res) + '\n')
+                    out.flush()
+                    continue
                 res = run_history(world, copy.deepcopy(case))
                 out.write(json.dumps({'ok': True, 'runs': res}) + '\n')
             except BaseException as exc:  # noqa
